@@ -62,7 +62,10 @@ alias a0='echo a0'\n\
 trap 'probe usr1' USR1\n\
 set -- p1 p2 p3\n\
 pushd sub2 >/dev/null\n\
-exec 5>keep5.txt\n";
+exec 5>keep5.txt\n\
+export -f fn2\n\
+complete -W 'x y' pcmd\n\
+xtrue\n";
 
 pub const MUTATORS: &[&str] = &[
     "v1=changed",
@@ -123,6 +126,26 @@ pub const MUTATORS: &[&str] = &[
     "continue",
     "return 9",
     "exit",
+    "export -f fn1",
+    "export -nf fn2",
+    "readonly -f fn1 >/dev/null",
+    "complete -W 'a b' mycmd",
+    "complete -r pcmd",
+    "hash -p /nonexistent_c12/xtrue xtrue",
+    "hash -d xtrue",
+    "xfalse",
+    "dirs -c",
+    "cd - >/dev/null",
+    "set -o posix",
+    "shopt -s lastpipe",
+    "declare +x v4",
+    "declare -l lower=ABC",
+    "unset -v v1",
+    "declare -t v2",
+    "set -o allexport; v9=nine",
+    "BASH_XTRACEFD=5",
+    "PS4=changed",
+    "HISTFILE=/nonexistent_c12/h",
 ];
 
 pub const PROCESS_WIDE: &[&str] = &["umask 077", "ulimit -S -n 768"];
